@@ -316,7 +316,7 @@ func (r *Reader) decode2D() {
 			a0 += runLength
 
 		case S_Vert:
-			a1 := b1 + int(int16(entry.Param))
+			a1 := min(b1+int(int16(entry.Param)), r.Columns)
 			r.fillRowBits(a0, a1, currentCol == 1)
 			currentCol = 1 - currentCol
 			a0 = a1
